@@ -4,6 +4,7 @@
 import Amqp.Reasm
 import Theorems.Chunks
 import Theorems.TxnRoute
+import Theorems.KeepTill
 
 namespace Amqp.Reasm
 
